@@ -51,3 +51,18 @@ def run(ctx):
     from ..engines import jsonpairs as JP
     JP.j11_pack_builders_carry_everything(ctx)
     ctx.floor("J11", 6)
+    # a rule asks its strategy the same question it is asked (round 10)
+    from ..engines import dispatch as DP5
+    DP5.d5_rule_delegates_to_the_same_question(ctx)
+    ctx.floor("D5", 4)
+    # the equivalence database merges whatever it is told is equivalent, and records two-way edges completely (round 10)
+    from ..engines import equivrules as QE10
+    QE10.k14_merge(ctx)
+    QE10.k15_edges(ctx)
+    ctx.floor("K14", 4)
+    ctx.floor("K15", 3)
+    QK22 = __import__("vstatic.engines.equivrules", fromlist=["x"])
+    QK22.k22_parent_pointers_are_not_representatives(ctx)
+    ctx.floor("K22", 1)
+    LK.k23_random_tree_marks_when_expanded(ctx)
+    ctx.floor("K23", 2)
